@@ -625,10 +625,10 @@ def write_arm(ctor, tag, env, arm, S, ctor_ids, ctor_fields):
 # --------------------------------------------------------------------------------------------
 
 def extract(g, X):
-    prim = X.strip_comments(X.read("pdf/src/primitive.rs"))
-    cont = X.strip_comments(X.read("pdf/src/content.rs"))
-    types = X.strip_comments(X.read("pdf/src/object/types.rs"))
-    objm = X.strip_comments(X.read("pdf/src/object/mod.rs"))
+    prim = X.source("pdf/src/primitive.rs")
+    cont = X.source("pdf/src/content.rs")
+    types = X.source("pdf/src/object/types.rs")
+    objm = X.source("pdf/src/object/mod.rs")
 
     # serialize_name's tables (name_ser_raw_lo/hi/except) are generated by gen/extract_syn.py
 
